@@ -1,5 +1,294 @@
-(* C06 — property theorems (under construction: statements are added as their proofs land). *)
+(* C06 - the decoder accepts every well-formed stream and converts losslessly across types.
+   Property theorems only; proofs in Proofs/DecValProofs.v (model against specification) and
+   Proofs/DecTablesProofs.v (tables regenerated from io/*.go against the model).
+   Model: Model/DecVal.v ([dec_top]: decode one wire tree into a zero-initialised destination);
+   specification: Model/DecSpec.v ([representable] on the denotation [WireSem.denote_top]). *)
 From Coq Require Import List NArith ZArith Strings.Byte Bool.
-From HV Require Import Model.DecVal.
-Theorem C06_placeholder : True. Proof. exact I. Qed.
-Print Assumptions C06_placeholder.
+From HV Require Import Lib.Dec Model.Wire Model.WireSem Model.Enc Model.DecAct Model.DecVal Model.DecSpec
+                       Gen.DecTables Proofs.DecTablesProofs Proofs.DecValProofs.
+Import ListNotations.
+Open Scope Z_scope.
+Local Open Scope bstr_scope.
+
+(* ============================================================ tables regenerated from the Go sources *)
+
+(* For every one of the 27 reflect.Kinds the six dispatch tables (fastDecode, fastDecodePtr,
+   valueDecoderFactories, ptrDecoderFactories, decodeHandlers, decodePtrHandlers) reach the same
+   routine (pointer tables the ...Ptr routine of the same type), and it is the routine the model
+   uses on every route. *)
+Theorem C06_routes_agree :
+  (forall row, In row all_kinds -> route_row_ok row = true) /\
+  (forall row, In row extra_fast -> extra_row_ok row = true) /\
+  length gen_dec_handler = 27%nat /\ length gen_dec_ptr_handler = 27%nat /\
+  length gen_dec_factory = 27%nat /\ length gen_dec_ptr_factory = 27%nat /\
+  length gen_dec_fast = 24%nat /\ length gen_dec_fast_ptr = 24%nat.
+Proof. exact routes_agree. Qed.
+Print Assumptions C06_routes_agree.
+
+(* no case arm, wrapper, reader or converter body that the extractor does not recognise *)
+Theorem C06_switch_total : tables_total = true.
+Proof. exact switch_total. Qed.
+Print Assumptions C06_switch_total.
+
+(* for each of the 32 routines and each of the 256 tag bytes: the arm in the Go source is the arm of the
+   model; and the leaf readers and string parsers the arms call are the ones the model assumes
+   (ReadIntN = intN(ReadInt64()), ReadFloat32/64 = strconv.ParseFloat with bit size 32/64 - one rounding -,
+   stringToX = strconv.ParseInt/ParseUint(s, 10, bitSize), ParseBool, ParseFloat(s, 32/64),
+   complexconv.ParseComplex(s, 64/128), big.X.SetString) *)
+Theorem C06_switch_matches_model :
+  (forall r, In r all_routines -> forall t, (t < 256)%N ->
+     sw_lookup (gen_switch (routine_name r)) t = sw_lookup (model_switch r) t) /\
+  gen_dec_readers = expected_readers /\
+  gen_dec_parsers = expected_parsers.
+Proof. split; [exact switch_matches_model | split; [exact readers_match_model | exact parsers_match_model]]. Qed.
+Print Assumptions C06_switch_matches_model.
+
+Theorem C06_optswitch_matches_model :
+  (forall l, opt_lookup "decodeLongAsInterface" (long_name l) = long_action l) /\
+  (forall r, opt_lookup "decodeNaNAsInterface" (real_name r) = nan_action r) /\
+  (forall r, opt_lookup "decodeInfinityAsInterface" (real_name r) = inf_action r) /\
+  (forall r, opt_lookup "decodeDoubleAsInterface" (real_name r) = double_action r).
+Proof. exact optswitch_matches_model. Qed.
+Print Assumptions C06_optswitch_matches_model.
+
+Theorem C06_wrappers_match_model : forall n w, In (n, w) expected_wrappers -> assoc gen_dec_wrappers n = Some w.
+Proof. exact wrappers_match_model. Qed.
+Print Assumptions C06_wrappers_match_model.
+
+Theorem C06_readers_match_model : gen_dec_readers = expected_readers.
+Proof. exact readers_match_model. Qed.
+Print Assumptions C06_readers_match_model.
+
+Theorem C06_ref_sites_match_model : gen_ref_effects = expected_ref_effects.
+Proof. exact ref_sites_match_model. Qed.
+Print Assumptions C06_ref_sites_match_model.
+
+Theorem C06_converters_match_model :
+  (forall k r, In (k, r) kind_routines ->
+     assoc gen_conv_fast (conv_key k) = Some (sw_lookup (model_switch r) (tg "s"))) /\
+  length gen_conv_fast = length kind_routines /\
+  gen_conv_registered =
+    [("stringType", "bigIntValueType"); ("stringType", "bigIntType"); ("stringType", "bigFloatValueType");
+     ("stringType", "bigFloatType"); ("stringType", "bigRatValueType"); ("stringType", "bigRatType");
+     ("stringType", "bytesType"); ("bytesType", "stringType"); ("stringType", "timeType"); ("stringType", "uuidType")].
+Proof. exact converters_match_model. Qed.
+Print Assumptions C06_converters_match_model.
+
+Theorem C06_tags_match_model : forall n b, In (n, b) model_tags -> assoc gen_tags n = Some (tg b).
+Proof. exact tags_match_model. Qed.
+Print Assumptions C06_tags_match_model.
+
+(* ============================================================ the model against the specification *)
+
+(* C06_accepts, proved part.  Guard: the destination is a top-level variable of one of the types
+   [proved_scalar] (bool, the 11 integer kinds, string, []byte, time.Time, uuid.UUID, big.Int,
+   big.Rat) and the stream is one scalar token (every tag except a, m, c, o, r, E) with real
+   calendar fields, a hexadecimal uuid and 'i' within 32 bits.
+   Premises about the oracles (standard library / hardware, supplied as a table): the table has
+   the entries asked for; converting an integral in-range double to an integer is exact for every
+   width; uuid.Parse of the canonical 36-character form is its lower-case form.
+   Not proved here (covered by the correspondence run on every check): float32/64, complex and
+   big.Float destinations (they need further laws about strconv), interface{}, pointers and
+   containers, references. *)
+Theorem C06_accepts_partial :
+  forall orc opts te f t w d v,
+    oracle_total orc -> law_f2i orc -> law_uuid orc ->
+    proved_scalar t = true -> scalar_tok w = true -> wf_tok w = true ->
+    denote_top w = Some d ->
+    representable orc opts te (S f) t d = RSome v ->
+    exists v', dec_top orc opts te (S (S f)) t w = OOk v' /\ xeqv spec_fuel v' v = true.
+Proof.
+  intros orc opts te f t w d v Ho L1 L2 Ht Hs Hw Hd Hr.
+  rewrite (denote_top_scalar w Hs) in Hd. inversion Hd; subst d.
+  rewrite (representable_scalar orc opts te f t w (proved_scalar_is_scalar t Ht) Hs) in Hr.
+  exact (accepts_scalar orc opts te f t w v Ho L1 L2 Ht Hs Hw Hr).
+Qed.
+Print Assumptions C06_accepts_partial.
+
+(* C06_refuses, proved part: same guard, plus [fits] - the exact boolean condition that excludes
+   the refuted classes below: an integer token lies in the destination's range, a double into an
+   integer or big.Int destination is integral (and in range). *)
+Theorem C06_refuses_partial :
+  forall orc opts te f t w d,
+    oracle_total orc ->
+    proved_scalar t = true -> scalar_tok w = true -> wf_tok w = true ->
+    denote_top w = Some d ->
+    representable orc opts te (S f) t d = RNone ->
+    fits orc t w = true ->
+    exists e, dec_top orc opts te (S (S f)) t w = OErr e.
+Proof.
+  intros orc opts te f t w d Ho Ht Hs Hw Hd Hr Hf.
+  rewrite (denote_top_scalar w Hs) in Hd. inversion Hd; subst d.
+  rewrite (representable_scalar orc opts te f t w (proved_scalar_is_scalar t Ht) Hs) in Hr.
+  exact (refuses_scalar_partial orc opts te f t w Ho Ht Hs Hw Hr Hf).
+Qed.
+Print Assumptions C06_refuses_partial.
+
+(* what happens outside [fits]: the integer is stored modulo 2^n, for every kind and every value *)
+Theorem C06_narrowing_is_wraparound :
+  forall orc opts te f k z,
+    dec_top orc opts te (S f) (TInt k) (WLong z) = OOk (XInt k (wrap_k k z)) /\
+    (wrap_k k z = z <-> in_range_k k z = true).
+Proof.
+  intros orc opts te f k z. split; [|apply wrap_k_fixed_iff].
+  apply (dec_top_scalar_value orc opts te f (TInt k) (WLong z) (SInt k) (XInt k (wrap_k k z)) eq_refl eq_refl).
+  - apply int_arm_wraps.
+  - reflexivity.
+Qed.
+Print Assumptions C06_narrowing_is_wraparound.
+
+(* no panic on scalar destinations: all 13 scalar types (floats, complex and big.Float included),
+   every scalar token, every option setting *)
+Theorem C06_no_panic_on_wellformed_partial :
+  forall orc opts te f t w,
+    oracle_total orc -> is_scalar_type t = true -> scalar_tok w = true -> wf_tok w = true ->
+    (exists v, dec_top orc opts te (S (S f)) t w = OOk v) \/ (exists e, dec_top orc opts te (S (S f)) t w = OErr e).
+Proof. exact scalar_no_panic. Qed.
+Print Assumptions C06_no_panic_on_wellformed_partial.
+
+(* one decoder for every position: a scalar destination is decoded by the same routine whether it is
+   reached from Decode (top level), from a pointer's element decoder or from a field / element /
+   key / value handler; with C06_routes_agree this is what the Go tables implement *)
+Theorem C06_position_independent :
+  forall orc opts te fuel t w pl st r1 r2,
+    is_scalar_type t = true -> dec orc opts te fuel r1 t w pl st = dec orc opts te fuel r2 t w pl st.
+Proof. exact route_independent_scalar. Qed.
+Print Assumptions C06_position_independent.
+
+(* ============================================================ refuted: C06_refuses and no-panic are false of the faithful model *)
+
+Definition opts0 : dopts :=
+  {| o_simple := true; o_long := LtInt; o_real := RlF64; o_simap := false; o_structval := false; o_listslice := false;
+     o_registered := [] |}.
+Definition no_oracle : bytes -> bytes -> option bytes := fun _ _ => None.
+
+(* the full statement fails: a stream, a type the denoted value does not fit in, and a value instead of an error *)
+Definition refuses_fails (orc : bytes -> bytes -> option bytes) (opts : dopts) (te : tenv) (t : gtype) (w : wire) (got : xval) : Prop :=
+  tok_ok w = true /\
+  (exists d, denote_top w = Some d /\ representable orc opts te spec_fuel t d = RNone) /\
+  dec_top orc opts te 100 t w = OOk got.
+
+Theorem C06_refuses_refuted_narrowing_int_overflow :    (* i300; into int8 gives 44 *)
+  refuses_fails no_oracle opts0 [] (TInt KInt8) (WInt 300) (XInt KInt8 44).
+Proof. split; [reflexivity|]. split; [eexists; split; reflexivity | vm_compute; reflexivity]. Qed.
+Print Assumptions C06_refuses_refuted_narrowing_int_overflow.
+
+Theorem C06_refuses_refuted_negative_into_unsigned :    (* i-1; into uint8 gives 255 *)
+  refuses_fails no_oracle opts0 [] (TInt KUint8) (WInt (-1)) (XInt KUint8 255).
+Proof. split; [reflexivity|]. split; [eexists; split; reflexivity | vm_compute; reflexivity]. Qed.
+Print Assumptions C06_refuses_refuted_negative_into_unsigned.
+
+Theorem C06_refuses_refuted_uint64_digits_wrap :        (* l18446744073709551617; into uint64 gives 1 *)
+  refuses_fails no_oracle opts0 [] (TInt KUint64) (WLong 18446744073709551617) (XInt KUint64 1).
+Proof. split; [reflexivity|]. split; [eexists; split; reflexivity | vm_compute; reflexivity]. Qed.
+Print Assumptions C06_refuses_refuted_uint64_digits_wrap.
+
+Theorem C06_refuses_refuted_long_into_interface :       (* l9223372036854775808; into interface{} (LongTypeInt) gives the least int *)
+  refuses_fails no_oracle opts0 [] TIface (WLong 9223372036854775808)
+                (XIface (TInt KInt) (XInt KInt (-9223372036854775808))).
+Proof. split; [reflexivity|]. split; [eexists; split; reflexivity | vm_compute; reflexivity]. Qed.
+Print Assumptions C06_refuses_refuted_long_into_interface.
+
+(* the oracle entries strconv and the hardware give for the text 1.5 *)
+Definition orc_1_5 : bytes -> bytes -> option bytes := fun fn arg =>
+  if bytes_eqb arg (bs "1.5") then
+    if bytes_eqb fn (bs "pf64") then Some (bs "+F1.5")
+    else if bytes_eqb fn (bs "f2i:int") || bytes_eqb fn (bs "f2i:int64") then Some (bs "+1") else None
+  else if bytes_eqb arg (bs "1") && bytes_eqb fn (bs "pf64") then Some (bs "+F1") else None.
+
+Theorem C06_refuses_refuted_float_truncates :           (* d1.5; into int gives 1 *)
+  refuses_fails orc_1_5 opts0 [] (TInt KInt) (WDouble (bs "1.5")) (XInt KInt 1).
+Proof. split; [reflexivity|]. split; [eexists; split; reflexivity | vm_compute; reflexivity]. Qed.
+Print Assumptions C06_refuses_refuted_float_truncates.
+
+(* ---- repaired by 62cfe3a (were panics / memory corruption of the faithful model before the fix;
+        the four streams are corpus cases of checks/C06.py) ---- *)
+
+Definition inner_env : tenv :=
+  [(bs "Inner", [(bs "x", TInt KInt); (bs "y", TString)]); (bs "SM", [(bs "a", TIface); (bs "b", TMap TString TIface)])].
+Definition opts_reg (simple : bool) : dopts :=
+  {| o_simple := simple; o_long := LtInt; o_real := RlF64; o_simap := false; o_structval := false; o_listslice := false;
+     o_registered := [bs "Inner"] |}.
+
+(* m1{a{}1} into interface{}: a list as key of map[interface{}]interface{} is a decode error *)
+Theorem C06_repaired_unhashable_key_is_an_error :
+  tok_ok (WMap [WList []; WDigit 1]) = true /\
+  dec_top no_oracle opts0 [] 100 TIface (WMap [WList []; WDigit 1]) = OErr EOther /\
+  dec_top no_oracle opts0 [] 100 (TMap TIface (TInt KInt)) (WMap [WBytes (bs "k"); WDigit 1]) = OErr EOther /\
+  (exists d, denote_top (WMap [WList []; WDigit 1]) = Some d /\ representable no_oracle opts0 [] spec_fuel TIface d = RNone).
+Proof. repeat split; try (vm_compute; reflexivity). eexists; split; vm_compute; reflexivity. Qed.
+Print Assumptions C06_repaired_unhashable_key_is_an_error.
+
+(* c5"Inner"1{s1"z"}o0{1} into map[string]interface{}: a class field the registered type lacks is decoded as interface{} *)
+Theorem C06_repaired_unknown_class_field_is_kept :
+  let w := WClass (bs "Inner") [bs "z"; bs "x"] (WObj 0 [WDigit 1; WDigit 2]) in
+  tok_ok w = true /\
+  dec_top no_oracle (opts_reg true) inner_env 100 (TMap TString TIface) w =
+    OOk (XMap [(XStr (bs "z"), XIface (TInt KInt) (XInt KInt 1)); (XStr (bs "x"), XIface (TInt KInt) (XInt KInt 2))]).
+Proof. split; vm_compute; reflexivity. Qed.
+Print Assumptions C06_repaired_unknown_class_field_is_kept.
+
+(* c5"Inner"1{s1"x"}o0{1} into map[interface{}]interface{}: the field names are boxed as interface{} keys *)
+Theorem C06_repaired_object_into_interface_keyed_map :
+  let w := WClass (bs "Inner") [bs "x"] (WObj 0 [WDigit 1]) in
+  tok_ok w = true /\
+  dec_top no_oracle (opts_reg true) inner_env 100 (TMap TIface TIface) w =
+    OOk (XMap [(XIface TString (XStr (bs "x")), XIface (TInt KInt) (XInt KInt 1))]).
+Proof. split; vm_compute; reflexivity. Qed.
+Print Assumptions C06_repaired_object_into_interface_keyed_map.
+
+(* m2{ua c3"Zzz"1{s1"x"} o0{1} ub r2;} into struct{A interface{}; B map[string]interface{}}: the referenced
+   object-as-map is shared by value (the same map), not read as a pointer to a map *)
+Theorem C06_repaired_reference_to_object_map :
+  let w := WMap [WChar (bs "a"); WClass (bs "Zzz") [bs "x"] (WObj 0 [WDigit 1]); WChar (bs "b"); WRef 2] in
+  let m := XMap [(XStr (bs "x"), XIface (TInt KInt) (XInt KInt 1))] in
+  tok_ok w = true /\
+  dec_top no_oracle (opts_reg false) inner_env 100 (TStruct (bs "SM")) w =
+    OOk (XStruct (bs "SM") [XIface (TMap TString TIface) m; m]).
+Proof. split; vm_compute; reflexivity. Qed.
+Print Assumptions C06_repaired_reference_to_object_map.
+
+(* ============================================================ the hypotheses are satisfiable *)
+
+(* a complete oracle table that satisfies the laws (every function reports failure), so the guarded
+   theorems are not vacuous; the integer, string, bytes, time and uuid cells do not consult it *)
+Definition failing_oracle : bytes -> bytes -> option bytes := fun fn arg =>
+  if bytes_eqb fn (bs "uuid") && uuid_syntax arg then Some (b_plus :: uuid_lower arg) else Some (bs "!").
+
+Lemma failing_oracle_call fn arg :
+  o_call failing_oracle fn arg =
+  if bytes_eqb fn (bs "uuid") && uuid_syntax arg then OVal (uuid_lower arg) else OFail.
+Proof. unfold o_call, failing_oracle. destruct (bytes_eqb fn (bs "uuid") && uuid_syntax arg); reflexivity. Qed.
+
+Lemma not_uuid_fn fn arg : bytes_eqb fn (bs "uuid") = false -> o_call failing_oracle fn arg = OFail.
+Proof. intros H. rewrite failing_oracle_call, H. reflexivity. Qed.
+
+Example oracle_premises_satisfiable : oracle_total failing_oracle /\ law_f2i failing_oracle /\ law_uuid failing_oracle.
+Proof.
+  split; [|split].
+  - constructor.
+    + intros b t. unfold o_float. destruct b; rewrite not_uuid_fn by reflexivity; exact I.
+    + intros k t. unfold o_f2i, o_int. rewrite not_uuid_fn by (destruct k; reflexivity). exact I.
+    + intros t. unfold o_int. rewrite not_uuid_fn by reflexivity. exact I.
+    + intros fn a. unfold o_text. rewrite failing_oracle_call.
+      destruct (bytes_eqb fn (bs "uuid") && uuid_syntax a); exact I.
+    + intros b s. unfold o_complex. destruct b; rewrite not_uuid_fn by reflexivity; exact I.
+    + intros a. unfold o_time. rewrite not_uuid_fn by reflexivity. exact I.
+    + intros a. unfold o_time. rewrite not_uuid_fn by reflexivity. exact I.
+  - intros k txt z H. unfold o_f2i, o_int in H. rewrite not_uuid_fn in H by (destruct k; reflexivity). discriminate.
+  - intros s Hs. unfold o_text. rewrite failing_oracle_call. rewrite Hs. reflexivity.
+Qed.
+
+Example accepts_instance :   (* l5; into int64, s1"7" into uint8, g{...} into uuid are inside the guards *)
+  proved_scalar (TInt KInt64) = true /\ scalar_tok (WLong 5) = true /\ wf_tok (WLong 5) = true /\
+  representable failing_oracle opts0 [] 3 (TInt KInt64) (DInt 5) = RSome (XInt KInt64 5) /\
+  representable failing_oracle opts0 [] 3 (TInt KUint8) (DStr (bs "7")) = RSome (XInt KUint8 7).
+Proof. repeat split; reflexivity. Qed.
+
+Example refuses_instance :   (* s3"abc" into int, b2"ab" into int64 are refused and inside [fits] *)
+  representable failing_oracle opts0 [] 3 (TInt KInt) (DStr (bs "abc")) = RNone /\
+  fits failing_oracle (TInt KInt) (WStr (bs "abc")) = true /\
+  representable failing_oracle opts0 [] 3 (TInt KInt64) (DBytes (bs "ab")) = RNone /\
+  fits failing_oracle (TInt KInt64) (WBytes (bs "ab")) = true /\
+  fits failing_oracle (TInt KInt8) (WInt 127) = true /\ fits failing_oracle (TInt KInt8) (WInt 128) = false.
+Proof. repeat split; reflexivity. Qed.
